@@ -80,7 +80,9 @@ impl FromStr for Type {
     type Err = &'static str;
 
     fn from_str(text: &str) -> Result<Self, Self::Err> {
-        match Caseless(text) {
+        // NOTE: patterns are matched structurally (not through
+        // Caseless's PartialEq), so the text is upper-cased first.
+        match Caseless(&text.to_ascii_uppercase()) {
             Caseless("A") => Ok(Self::A),
             Caseless("NS") => Ok(Self::NS),
             Caseless("MD") => Ok(Self::MD),
